@@ -24,6 +24,7 @@ def check(run):
     mustemit(run, p, 'C11-MUSTEMIT')
     joinrepr(run, p)
     attrs(run, p)
+    snapshot(run, p)
     run.assume('file names of scripts and encodings are made of characters that need no escaping in Python source')
     run.trust('repr() of a str is a valid Python expression denoting it; os.path functions are pure')
 
@@ -444,3 +445,26 @@ def attrs(run, p):
                            'getattr(self, %r) in %s: the class %s' % (lit.value, f.short, 'assigns it' if lit.value in assigned else 'never assigns such an attribute (AttributeError)'),
                            fn=f, node=uses[0])
     run.floor('C11-ATTRS', n, 6)
+
+
+def snapshot(run, p):
+    run.rule('C11-SNAPSHOT', 'the time stored in the pre-run filesystem snapshot and the time later compared with it are the same kind of '
+                             'timestamp (both ctime): a file is an output only if it changed after the snapshot')
+    c = p.cls('TestGenerator')
+    kinds = {}
+    for f in c.methods.values():
+        src = ast.unparse(f.node)
+        if 'self.snapshot' not in src:
+            continue
+        for x in ast.walk(f.node):
+            k = None
+            if isinstance(x, ast.Attribute) and x.attr in ('st_ctime', 'st_mtime', 'st_atime', 'st_ctime_ns', 'st_mtime_ns'):
+                k = x.attr.replace('st_', '').replace('_ns', '')
+            if isinstance(x, ast.Call) and norm(x.func) in ('os.path.getmtime', 'os.path.getctime', 'os.path.getatime'):
+                k = norm(x.func)[-5:]
+            if k:
+                kinds.setdefault(f.short, set()).add(k)
+    allk = set().union(*kinds.values()) if kinds else set()
+    run.ob('C11-SNAPSHOT', 'TestGenerator:snapshot', len(kinds) >= 2 and allk == {'ctime'},
+           'timestamps used with self.snapshot: %s' % {k: sorted(v) for k, v in sorted(kinds.items())}, fn=c.methods['snapshot_filesystem'])
+    run.floor('C11-SNAPSHOT', len(kinds), 2)
